@@ -143,6 +143,13 @@ Prog(o, n) ==
          \o Marked("l", WF(ListP(k), "metadata/manifests", "list", "list", "", <<>>, "lst"))
          \o Flip(k, (ReachK(n) \ {F(MetaP(n))}) \cup {F(MetaP(k)), F(ListP(k)), F("metadata/manifests/rewritten")})
          \o Unmark(<<"m", "l">>) \o << IAck(TRUE) >>
+    [] o = "replace" ->  \* delete_files + append in one transaction: data file, rewritten manifest, new manifest, list, ONE flip
+         Marked("d", DF(DataP(k), "a"))
+         \o Marked("r", WF("metadata/manifests/rewritten", "metadata/manifests", "manifest", "manifest", "", <<>>, "man"))
+         \o Marked("m", WF(ManP(k), "metadata/manifests", "manifest", "manifest", "", <<>>, "man"))
+         \o Marked("l", WF(ListP(k), "metadata/manifests", "list", "list", "", <<>>, "lst"))
+         \o Flip(k, (ReachK(n) \ {F(MetaP(n))}) \cup {F(MetaP(k)), F(ListP(k)), F("metadata/manifests/rewritten"), F(ManP(k)), F(DataP(k))})
+         \o Unmark(<<"d", "r", "m", "l">>) \o << IAck(TRUE) >>
     [] o \in {"expire", "deletesnap"} ->   \* metadata-only: the new version keeps the newest snapshot
          Flip(k, {F(MetaP(k)), F(ListP(n))} \cup UNION {{F(ManP(j)), F(DataP(j))} : j \in 1..n})
          \o << IAck(TRUE) >>
@@ -151,8 +158,8 @@ Prog(o, n) ==
          \o (IF V("gclive") /\ n > 0 THEN << IUnlink(DataP(1), "gc") >> ELSE << >>)
          \o << IAck(FALSE) >>
 
-Ops == {"create", "append", "multi", "delete", "expire", "deletesnap", "gc"}
-Valid(o, n) == (o = "create" => n = 0) /\ (o \in {"delete", "expire", "deletesnap"} => n >= 1)
+Ops == {"create", "append", "multi", "delete", "replace", "expire", "deletesnap", "gc"}
+Valid(o, n) == (o = "create" => n = 0) /\ (o \in {"delete", "replace", "expire", "deletesnap"} => n >= 1)
 
 (* ---------------- what is on disk before the operation ---------------- *)
 Ent(p, d, c, kind, tgt) == [path |-> p, dir |-> d, cls |-> c, kind |-> kind, size |-> IF kind = "dir" THEN 0 ELSE 10, target |-> tgt]
